@@ -223,6 +223,43 @@ def bound_class(f, bb, S, b, side):
         return False, "match start + `%s`" % atxt[:60], {}
     if pos[0] == "call" and pos[1].endswith(FINDERS) and "str" in pos[1]:
         return False, "offset found in a DIFFERENT string (%s)" % fmt_sym(strip(pos[2][0]), maxdepth=4)[:60], {}
+    # offsets of a char_indices() scan of the same string, in this function: the item index, that index + 1 under a
+    # match arm on an ASCII char, 0, and any mix of those held in a cursor variable
+    alts = list(s[1]) if s[0] == "phi" else [s]
+    scan_ok = True
+    saw_scan = False
+    for alt in alts:
+        a2 = strip(alt)
+        if a2[0] == "const" and a2[2] == 0:
+            continue
+        plus = 0
+        if a2[0] == "field" and a2[2] == "0" and strip(a2[1])[0] == "bin":
+            a2 = strip(a2[1])
+        if a2[0] == "bin" and a2[1] in ("Add", "AddWithOverflow") and strip(a2[3])[0] == "const" and strip(a2[3])[2] == 1:
+            plus = 1
+            a2 = strip(a2[2])
+        at = fmt_sym(a2, maxdepth=D)
+        ci = [x for x in walk(a2) if x[0] == "call" and x[1].endswith("::char_indices") and x[2] and fmt_sym(strip(x[2][0]), maxdepth=D) == S]
+        bad = any(x[0] == "call" and x[1].endswith(("::enumerate", "::count", "::position")) for x in walk(a2))
+        if ci and not bad and at.endswith(".0"):
+            saw_scan = True
+            if plus:
+                # the store `cursor = i + 1` must sit under an arm on an ASCII char
+                okarm = False
+                for b2 in sorted(f.normal_blocks()):
+                    for st in f.stmts(b2):
+                        if st[2] == "=" and st[4][0] == "use":
+                            pass
+                for d in [d for l_ in range(len(f.locals)) for d in f.defs().get(l_, []) if d[2] == "assign" and fmt_sym(strip(f.sym_rvalue(d[3][4])), maxdepth=D) == fmt_sym(strip(alt), maxdepth=D)]:
+                    for gd in A.guards_of(f, d[0]):
+                        if not isinstance(gd["polarity"], bool) and isinstance(gd["polarity"], int) and gd["polarity"] < 128 and any(x[0] == "call" and x[1].endswith("::char_indices") for x in walk(gd["cond"])):
+                            okarm = True
+                if not okarm:
+                    scan_ok = False
+        else:
+            scan_ok = False
+    if scan_ok and saw_scan:
+        return True, "offset(s) of a char_indices() scan of the same string (index, or index + 1 after an ASCII char, or 0)", {"pos": True, "scan": True}
     if pos[0] == "call" and pos[1] in f.prog.fns and addsym is None:
         k = boundary_summary(f.prog, f.prog.fns[pos[1]])
         if k is not None and k - 1 < len(pos[2]) and fmt_sym(strip(pos[2][k - 1]), maxdepth=D) == S:
@@ -335,6 +372,8 @@ def discharge_str_index(site):
                     pass_ok = True
             if not pass_ok:
                 return False, "start is a match offset and end is len-k: their order is not established"
+        elif a.get("scan") and b_.get("scan"):
+            pass   # both bounds advance with one left-to-right scan: the cursor never passes the current index
         elif "pos" in a and "pos" in b_:
             if not _ordered_by_guard(f, site["bb"], bounds[0], bounds[1]):
                 return False, "two independent match offsets carry no order (no dominating comparison of the bounds)"
